@@ -230,6 +230,7 @@ def s_scatter_all_dynamic(ctx):
     except PyRaise as e:
         ctx.check("C04.rules.ScatterAllDynamic.check_never_raises", False, CL04 + f" — raised {type(e.exc).__name__}: {e.exc}")
         return
+    ctx.check("C04.rules.ScatterAllDynamic.check_never_raises", True, CL04)
     if not fired:
         ctx.cover("ScatterAllDynamic.check_failed")
         return
